@@ -11,7 +11,7 @@ META = {
     'assumptions': ['AstVm is the semantics of both decompiled forms', 'when A1 jumps into a nested block the comparison runs on desugar(A1) (relies on C06; counted as via_desugar)'],
     'floors': {'streams': 50, 'near_structured_streams': 50, 'runs_compared': 300, 'with_recovered_blocks': 20},
 }
-SIZES = {'quick': 3000, 'thorough': 80000}
+SIZES = {'quick': 9000, 'thorough': 80000}
 
 def make_req(cfg, body, states):
     ri, rf = LW.all_regs()
